@@ -146,7 +146,14 @@ pub fn run_c13(tier: Tier, seed: u64) -> i32 {
     for case in 0..cases {
         let dir = scratch.path().join(format!("c{}", case)).join("t");
         let nfiles = 1 + rng.usize(4);
-        let fs = gen_fileset(&mut rng, &dir, nfiles, tier.pick(3000, 12000), false);
+        let fs = if case % 3 == 2 {
+            // twin files: equal row counts, one row group each, so the cuts fall at the
+            // same offsets of the same row-group index in different files
+            let k = 2 + rng.usize(3);
+            twin_fileset(&mut rng, &dir, k)
+        } else {
+            gen_fileset(&mut rng, &dir, nfiles, tier.pick(3000, 12000), false)
+        };
         let total: usize = fs.rows.iter().sum();
         if total == 0 {
             continue;
@@ -180,6 +187,11 @@ pub fn run_c13(tier: Tier, seed: u64) -> i32 {
             let filter_sql = format!("v BETWEEN {} AND {}", lo, hi);
             let mut union_all: Vec<Row> = Vec::new();
             let mut union_filtered: Vec<Row> = Vec::new();
+            // a second, different filter on the same shard context, and a projection that
+            // moves the filtered column away from its table position
+            let mut union_second: Vec<Row> = Vec::new();
+            let mut union_proj: Vec<Row> = Vec::new();
+            let neg = rng.range(-45, -1);
             let mut sum_count = 0i64;
             let mut sum_v: i64 = 0;
             let mut ok = true;
@@ -210,6 +222,20 @@ pub fn run_c13(tier: Tier, seed: u64) -> i32 {
                 }
                 match run_sql(&sctx, &format!("SELECT id AS c0, v AS c1 FROM t WHERE {}", filter_sql)) {
                     Outcome::Ok(a) => union_filtered.extend(a.rows),
+                    o => {
+                        rep.fail("shard-filter-error", &format!("shard {} of {}: {}", i, nodes, o.short()), json!({"nodes": nodes, "shard": i}));
+                        ok = false;
+                    }
+                }
+                match run_sql(&sctx, &format!("SELECT id AS c0, v AS c1 FROM t WHERE v > {}", hi)) {
+                    Outcome::Ok(a) => union_second.extend(a.rows),
+                    o => {
+                        rep.fail("shard-filter-error", &format!("shard {} of {}: {}", i, nodes, o.short()), json!({"nodes": nodes, "shard": i}));
+                        ok = false;
+                    }
+                }
+                match run_sql(&sctx, &format!("SELECT v AS c0 FROM t WHERE v <= {}", neg)) {
+                    Outcome::Ok(a) => union_proj.extend(a.rows),
                     o => {
                         rep.fail("shard-filter-error", &format!("shard {} of {}: {}", i, nodes, o.short()), json!({"nodes": nodes, "shard": i}));
                         ok = false;
@@ -247,6 +273,14 @@ pub fn run_c13(tier: Tier, seed: u64) -> i32 {
             if let Err(why) = multiset_eq(&union_filtered, &want_f) {
                 rep.fail("filtered-union", &format!("union of shard answers to WHERE {} != single-node answer: {}", filter_sql, why), replay.clone());
             }
+            let want_2: Vec<Row> = full.iter().filter(|r| matches!(&r[1], Cell::Int(v) if *v > hi)).cloned().collect();
+            if let Err(why) = multiset_eq(&union_second, &want_2) {
+                rep.fail("second-filter-union", &format!("union of shard answers to a SECOND filter on the same shard contexts (WHERE v > {}) != single-node answer: {}", hi, why), replay.clone());
+            }
+            let want_p: Vec<Row> = full.iter().filter(|r| matches!(&r[1], Cell::Int(v) if *v <= neg)).map(|r| vec![r[1].clone()]).collect();
+            if let Err(why) = multiset_eq(&union_proj, &want_p) {
+                rep.fail("projected-filter-union", &format!("union of shard answers to SELECT v WHERE v <= {} != single-node answer: {}", neg, why), replay.clone());
+            }
             let want_sum: i64 = full.iter().filter_map(|r| if let Cell::Int(v) = &r[1] { Some(*v) } else { None }).sum();
             if sum_count != full.len() as i64 || sum_v != want_sum {
                 rep.fail("aggregate-sum", &format!("sum of shard COUNT/SUM = ({}, {}) but the table has ({}, {})", sum_count, sum_v, full.len(), want_sum), replay.clone());
@@ -263,6 +297,19 @@ pub fn run_c13(tier: Tier, seed: u64) -> i32 {
     rep.set("sub_row_group_splits_observed", json!(sub_rg));
     rep.floor(sub_rg > 0, "no row group was ever cut into sub-row-group ranges");
     rep.finish()
+}
+
+fn twin_fileset(rng: &mut Rng, dir: &std::path::Path, nfiles: usize) -> crate::checks::c11::FileSet {
+    std::fs::create_dir_all(dir).unwrap();
+    let rows = *rng.pick(&[400usize, 1000, 3000]);
+    let mut files = Vec::new();
+    for i in 0..nfiles {
+        let t = crate::checks::c11::gen_table(rng, rows, false, i as i64);
+        let p = dir.join(format!("part-{:02}.parquet", i));
+        crate::data::write_parquet_file(&p, t.schema(), &[t.one_batch()], &crate::data::PqOpts { files: 1, rg_rows: 1 << 20, dictionary: false, snappy: false, stats: true });
+        files.push(p);
+    }
+    crate::checks::c11::FileSet { files, rows: vec![rows; nfiles] }
 }
 
 // ---------------------------------------------------------------------------
